@@ -1,5 +1,5 @@
-Require Import DS.Base DS.Cond DS.CondSpec.
+Require Import DS.Base DS.Cond DS.CondSpec DS.CondIx.
 Require Import ExtrOcamlBasic.
 Extraction Language OCaml.
 Extraction "../ocaml/gen/c06_model.ml" N.of_nat N.to_nat Z.of_N Z.to_N
-  eval_slice is_true_some falsy toks sem.
+  eval_slice is_true_some falsy toks sem eval_slice_ix eval_slice_ix_checked.
